@@ -117,6 +117,8 @@ Definition nth_num (l : list Z) (i : nat) : res Z := match nth_error l i with So
 Definition iter_res (n : Z) (f : term -> res term) (t : term) : res term :=
   N.iter (Z.to_N n) (fun r => bind r f) (ROk t).
 Definition iter_tot (n : Z) (f : term -> term) (t : term) : term := N.iter (Z.to_N n) f t.
+(* REP (CSI Pn b, after the fix): `min(num, width.saturating_mul(height))` copies - one screen full *)
+Definition rep_limit (t : term) : Z := sat_mul (tw t) (th t).
 
 (* ---- SGR --------------------------------------------------------------------------------------- *)
 Definition COLOR_OFFSETS (i : Z) : Z :=      (* constants::COLOR_OFFSETS = [0, 4, 2, 6, 1, 5, 3, 7] *)
@@ -528,7 +530,7 @@ Definition csi_final (t : term) (p : pst) (is_start : bool) (ch : Z) : outcome :
   else if ch =? 83 then ok (iter_tot (first_or ns 1) scroll_up t) d               (* S *)
   else if ch =? 84 then ok (iter_tot (first_or ns 1) scroll_down t) d             (* T *)
   else if ch =? 98 then                                                           (* b  REP *)
-    lift (iter_res (first_or ns 1) (fun x => print_char x (print_cell t (last_char p))) t) d
+    lift (iter_res (Z.min (first_or ns 1) (rep_limit t)) (fun x => print_char x (print_cell t (last_char p))) t) d
   else if ch =? 103 then                                                          (* g  TBC *)
     if 1 <? nlen ns then err t d
     else let n := first_or ns 0 in
